@@ -156,8 +156,48 @@ func (tt *verifC19Topics) Update(topic string, update map[string]interface{}) er
 // comes back as a nil slice (the reference adapter harness/server/db/memadp does the same).
 type verifC19Acct struct {
 	store.UsersPersistenceInterface
-	tags  []string
-	creds map[string]bool
+	tags    []string
+	creds   map[string]bool
+	created bool
+	nextUid int
+}
+
+func (a *verifC19Acct) Create(user *types.User, private interface{}) (*types.User, error) {
+	a.nextUid++
+	user.SetUid(types.Uid(9000 + a.nextUid))
+	user.InitTimes()
+	a.created = true
+	a.tags = append([]string(nil), user.Tags...)
+	return user, nil
+}
+
+func (a *verifC19Acct) Delete(id types.Uid, hard bool) error {
+	a.created, a.tags = false, nil
+	return nil
+}
+
+func (a *verifC19Acct) GetAuthUniqueRecord(scheme, unique string) (types.Uid, auth.Level, []byte, time.Time, error) {
+	return types.ZeroUid, auth.LevelNone, nil, time.Time{}, nil
+}
+
+func (a *verifC19Acct) AddAuthRecord(uid types.Uid, authLvl auth.Level, scheme, unique string, secret []byte, expires time.Time) error {
+	return nil
+}
+
+// verifC19GrpStore: the topics table behind a group topic created by initTopicNewGrp (same tag list object)
+type verifC19GrpStore struct {
+	store.TopicsPersistenceInterface
+	a *verifC19Acct
+}
+
+func (g *verifC19GrpStore) Create(topic *types.Topic, owner types.Uid, private interface{}) error {
+	g.a.created = true
+	g.a.tags = append([]string(nil), topic.Tags...)
+	return nil
+}
+
+func (g *verifC19GrpStore) Update(topic string, update map[string]interface{}) error {
+	return g.a.Update(types.ZeroUid, update)
 }
 
 func (a *verifC19Acct) DelCred(id types.Uid, method, value string) error {
@@ -385,6 +425,11 @@ func TestVerifC19Child(t *testing.T) {
 	}
 	forms = append(forms, `"new york"`, `"a,b"`, `""`)
 	seps := []string{" ", ",", ", ", " ,", "\t", " , ", "  "}
+	// multi-byte runes immediately before a comma / a space / a quote / the end (byte offsets vs rune counts)
+	for _, q := range []string{"éa,b", "é,b", "é b", "aé,b é", "münchen flat,house", "MÜNCHEN,Flat house", "flat,münchen", "ü,ü ü", "日本 語,x", "日,本",
+		"x 日本語", `"日本",語`, `"é",b`, `"münchen" flat`, `é"b`, `"é"b c`, "éé,,b", "日本,, 語", " é,b ", "\té\t,\tb", "é1,1é ü1", "basic:日本,email:ü@é.de", "ü@é.de,x"} {
+		emitParse("L3", q, cfgAll)
+	}
 	for _, f := range forms {
 		emitParse("L3", f, cfgAll)
 		emitParse("L3", ","+f, cfgAll[7:])
@@ -741,8 +786,8 @@ func TestVerifC19Child(t *testing.T) {
 		had := acct.creds[tag]
 		cachePre := cp(tp.tags)
 		rec["cred"], rec["hadCred"], rec["indexed"] = verifC19CP(tag), had, globals.validators[c[0]].addToTags
-		msg := &ClientComMessage{Del: &MsgClientDel{Id: "d1", Topic: "me", What: "cred", Cred: &MsgCredClient{Method: c[0], Value: c[1]}},
-			Id: "d1", Original: "me", RcptTo: tp.name, AsUser: owner.UserId(), AuthLvl: int(auth.LevelAuth), MetaWhat: constMsgDelCred,
+		msg := &ClientComMessage{Del: &MsgClientDel{Id: "d1", Topic: tp.xoriginal, What: "cred", Cred: &MsgCredClient{Method: c[0], Value: c[1]}},
+			Id: "d1", Original: tp.xoriginal, RcptTo: tp.name, AsUser: owner.UserId(), AuthLvl: int(auth.LevelAuth), MetaWhat: constMsgDelCred,
 			Timestamp: time.Now(), sess: sess}
 		tp.handleMeta(msg)
 		drainHub()
@@ -757,8 +802,8 @@ func TestVerifC19Child(t *testing.T) {
 	hSet := func(raw []string) {
 		rec := hRec("set")
 		rec["raw"] = verifC19CPs(raw)
-		msg := &ClientComMessage{Set: &MsgClientSet{Id: "s2", Topic: "me", MsgSetQuery: MsgSetQuery{Tags: cp(raw)}},
-			Id: "s2", Original: "me", RcptTo: tp.name, AsUser: owner.UserId(), AuthLvl: int(auth.LevelAuth), MetaWhat: constMsgMetaTags,
+		msg := &ClientComMessage{Set: &MsgClientSet{Id: "s2", Topic: tp.xoriginal, MsgSetQuery: MsgSetQuery{Tags: cp(raw)}},
+			Id: "s2", Original: tp.xoriginal, RcptTo: tp.name, AsUser: owner.UserId(), AuthLvl: int(auth.LevelAuth), MetaWhat: constMsgMetaTags,
 			Timestamp: time.Now(), sess: sess}
 		tp.handleMeta(msg)
 		drainHub()
@@ -831,5 +876,126 @@ func TestVerifC19Child(t *testing.T) {
 			}
 		}
 	}
+	// ---- tags given at CREATION time, through the real initTopicNewGrp ({sub topic="new"|"nch" set.tags}) and the real
+	// replyCreateUser ({acc user="new" tags}; anonymous scheme, and the real basic authenticator for a few), under
+	// configurations whose immutable and masked namespace sets differ; then {set tags} on the created object.
+	crStride := geti("VERIF_C19_CRSTRIDE", 3)
+	crCfgs := [][2][]string{
+		{{"basic", "email", "tel"}, {"rest"}},
+		{{"rest"}, {"basic", "email", "tel"}},
+		{{"basic", "email", "tel", "rest"}, {"basic", "email", "tel", "rest"}},
+		{{}, {"rest"}},
+	}
+	crVocab := []string{"ab", " Ab ", "AB", "a", "_ab", "geo:x", "rest:x", "REST:Y", "basic:alice", "email:a@c.d", "Email:A@c.d",
+		"tel:+14155551212", "email:o'brien@example.com", nullValue, "münchen", "日本"}
+	crLists := [][]string{nil, {}}
+	for _, a := range crVocab {
+		crLists = append(crLists, []string{a})
+	}
+	for _, a := range crVocab {
+		for _, b := range crVocab {
+			crLists = append(crLists, []string{a, b})
+		}
+	}
+	for i := 0; i < 150; i++ {
+		crLists = append(crLists, []string{crVocab[rng.Intn(len(crVocab))], crVocab[rng.Intn(len(crVocab))], crVocab[rng.Intn(len(crVocab))]})
+	}
+	savedTopics := store.Topics
+	crWalk := 200000
+	create := func(kind, scheme, login string, raw []string, imm, msk []string, max int) bool {
+		crWalk++
+		globals.immutableTagNS, globals.maskedTagNS, globals.maxTagCount = verifC19NsMap(imm), verifC19NsMap(msk), max
+		if selftest == "create" {
+			globals.immutableTagNS = map[string]bool{} // simulates a creation path that forgets the reserved-namespace check (never set in normal runs)
+		}
+		verifC19Apply(verifC19Cfg{Email: true, Tel: true, Basic: basic, Login: true})
+		acct = &verifC19Acct{creds: map[string]bool{}}
+		store.Users = acct
+		store.Topics = &verifC19GrpStore{a: acct}
+		hWalk, hStep, hImm, hMax = crWalk, 0, imm, max
+		var in []string
+		if raw != nil {
+			in = cp(raw)
+		}
+		rec := map[string]any{"op": "create", "kind": kind, "scheme": scheme, "imm": verifC19CPs(imm), "msk": verifC19CPs(msk), "max": max,
+			"raw": verifC19CPs(raw), "rawNil": raw == nil, "walk": crWalk, "serverTags": [][]int{}, "cache": [][]int{}, "code": 0}
+		ok := false
+		if kind == "acc" {
+			s2 := &Session{sid: "sidC19acc", subs: map[string]*Subscription{}, send: make(chan any, 16), countryCode: "US", lang: "en", remoteAddr: "127.0.0.1"}
+			acc := &MsgClientAcc{Id: "a1", User: "new", Scheme: scheme, Tags: in}
+			if scheme == "basic" {
+				acc.Secret = []byte(login + ":secret123")
+				rec["serverTags"] = verifC19CPs([]string{"basic:" + login})
+			}
+			msg := &ClientComMessage{Acc: acc, Id: "a1", Timestamp: time.Now(), sess: s2}
+			replyCreateUser(s2, msg, nil)
+			code := 0
+			for len(s2.send) > 0 {
+				if sm, isMsg := (<-s2.send).(*ServerComMessage); isMsg && sm.Ctrl != nil {
+					code = sm.Ctrl.Code
+				}
+			}
+			rec["code"] = code
+			ok = code >= 200 && code < 300
+			if ok {
+				// the account's `me` topic loads the stored tags (init_topic.go:154)
+				tp = newTopic(false, acct.tags)
+			}
+		} else {
+			name := "grpVerifC19n" + strconv.Itoa(crWalk)
+			tp = &Topic{name: name, xoriginal: map[string]string{"grp": "new", "chn": "nch"}[kind] + "C19", status: topicStatusLoaded,
+				perUser: map[types.Uid]perUserData{}, sessions: map[*Session]perSessionData{}}
+			sreg := &ClientComMessage{Sub: &MsgClientSub{Id: "n1", Topic: tp.xoriginal, Set: &MsgSetQuery{Tags: in}},
+				Id: "n1", Original: tp.xoriginal, RcptTo: name, AsUser: owner.UserId(), AuthLvl: int(auth.LevelAuth), Timestamp: time.Now(), sess: sess}
+			err := initTopicNewGrp(tp, sreg, kind == "chn")
+			ok = err == nil
+			if err == types.ErrPermissionDenied {
+				rec["code"] = 403
+			} else if err != nil {
+				rec["code"] = 500
+			} else {
+				rec["code"] = 200
+				rec["cache"] = verifC19CPs(tp.tags)
+			}
+		}
+		rec["ok"], rec["created"], rec["stored"] = ok, acct.created, verifC19CPs(acct.tags)
+		globals.immutableTagNS = verifC19NsMap(imm)
+		emit(rec)
+		return ok
+	}
+	follow := func(imm []string) {
+		// {set tags} on the created object: an honest change, then a tag of each immutable namespace, then a clean-up
+		hSet(append(cp(acct.tags), "cd"))
+		for _, ns := range imm {
+			hSet(append(cp(acct.tags), ns+":zz"))
+		}
+		hSet(append(cp(acct.tags), "Geo:Y", " cd "))
+		hSet([]string{nullValue})
+	}
+	k = int(seed)
+	for ci, cc := range crCfgs {
+		for li, raw := range crLists {
+			for ki, kind := range []string{"grp", "chn", "acc"} {
+				// every list with one kind (rotating) in the quick tier, with all three in thorough
+				if len(raw) >= 2 && (li+ki+int(seed))%crStride != 0 {
+					continue
+				}
+				max := 16
+				if len(raw) == 3 && li%2 == 0 {
+					max = 2
+				}
+				if create(kind, map[string]string{"grp": "", "chn": "", "acc": "anonymous"}[kind], "", raw, cc[0], cc[1], max) && (li+ci+ki)%4 == 0 {
+					follow(cc[0])
+				}
+			}
+		}
+		// the real basic authenticator: the server itself adds basic:<login> when it indexes logins
+		for _, raw := range [][]string{nil, {"ab"}, {"basic:alice"}, {"basic:bob", "ab"}, {"email:a@c.d"}, {"rest:x", "geo:x"}} {
+			if create("acc", "basic", "alice", raw, cc[0], cc[1], 16) {
+				follow(cc[0])
+			}
+		}
+	}
+	store.Topics = savedTopics
 	t.Logf("C19 child basic=%v wrote %d records", basic, nrec)
 }
